@@ -18,6 +18,7 @@ import (
 	"fmt"
 	"go/ast"
 	"go/format"
+	"go/scanner"
 	"go/types"
 	"log"
 	"os"
@@ -165,6 +166,13 @@ func newPackage(program *loader.Program, pkgInfo *loader.PackageInfo, plugins []
 		}
 
 		if changed {
+			// a file that did not parse completely has an incomplete syntax tree,
+			// printing that tree over the file would lose the rest of its contents.
+			for _, e := range pkgInfo.Errors {
+				if serrs, ok := e.(scanner.ErrorList); ok && len(serrs) > 0 && serrs[0].Pos.Filename == fileInfo.fullpath {
+					return nil, fmt.Errorf("cannot rename function calls in %s, it has syntax errors: %v", fileInfo.fullpath, serrs[0])
+				}
+			}
 			info, err := os.Stat(fileInfo.fullpath)
 			if err != nil {
 				return nil, fmt.Errorf("stat %s: %v", fileInfo.fullpath, err)
